@@ -2685,6 +2685,154 @@ Theorem C01_file_one_exclusion_necessary :
 Proof. exact class_file_one_exclusion_necessary. Qed.
 Print Assumptions C01_file_one_exclusion_necessary.
 
+(* ---- the drive-letter dispatch of the file state itself: NO leading separator, the text starts with a Windows drive
+   letter ("C|/y" scheme-less - with ':' the letter is a scheme -, "file:C:/y", "file:C|/y") ---- *)
+(* the Standard's side alone, every file base: file state, "otherwise" arm with a drive letter in front: host of the
+   base kept, path emptied, path state on the whole text *)
+Theorem C01_file_drive_spec : forall shp sb input c t,
+  spec_scheme (spec_clean input) = Some (str_file, c :: t) -> starts_with_windows_drive_letter (c :: t) = true ->
+  list_eqb (su_scheme sb) str_file = true ->
+  spec_basic_url_parse shp input (Some sb) = BDone (file_tail (fkeep sb []) (spath_f (c :: t) [] [])).
+Proof. exact spec_file_same_drive. Qed.
+Print Assumptions C01_file_drive_spec.
+
+(* classes in_class_file_rel_drive / in_class_file_same_drive: `related` base whose Standard record is a file URL
+   without opaque path and with the EMPTY host (parser.rs drops the host of the base: "file:///" + path parser; the
+   Standard keeps it); the text (scheme-less, resp. behind "file:") starts with a Windows drive letter and is inside
+   fp_ok false.  agree_good + full_base result.  Beside C01_statement_all3 (class 1 of Known_C01). *)
+Theorem C01_eq_file_rel_drive : forall dbg hp hpo hd shp shs, shs SEmpty = [] -> forall input b sb,
+  usv_list input -> related dbg shs b sb -> in_class_file_rel_drive sb input = true ->
+  agree_good dbg shs (parse_url dbg hp hpo hd None (Some b) input) (spec_basic_url_parse shp input (Some sb))
+  /\ (forall su u, spec_basic_url_parse shp input (Some sb) = BDone su -> parse_url dbg hp hpo hd None (Some b) input = POk u ->
+        full_base dbg shs u su).
+Proof. exact class_file_rel_drive. Qed.
+Check C01_eq_file_rel_drive : forall dbg hp hpo hd shp shs, shs SEmpty = [] -> forall input b sb,
+  usv_list input -> related dbg shs b sb ->
+  match spec_scheme (spec_clean input) with
+  | None => negb (has_opaque_path sb) && list_eqb (su_scheme sb) str_file
+            && match su_host sb with Some SEmpty => true | _ => false end
+            && starts_with_windows_drive_letter (spec_clean input) && fp_ok false (spec_clean input) (spec_clean input)
+  | Some _ => false
+  end = true ->
+  agree_good dbg shs (parse_url dbg hp hpo hd None (Some b) input) (spec_basic_url_parse shp input (Some sb))
+  /\ (forall su u, spec_basic_url_parse shp input (Some sb) = BDone su -> parse_url dbg hp hpo hd None (Some b) input = POk u ->
+        full_base dbg shs u su).
+Print Assumptions C01_eq_file_rel_drive.
+
+Theorem C01_eq_file_same_drive : forall dbg hp hpo hd shp shs, shs SEmpty = [] -> forall input b sb,
+  usv_list input -> related dbg shs b sb -> in_class_file_same_drive sb input = true ->
+  agree_good dbg shs (parse_url dbg hp hpo hd None (Some b) input) (spec_basic_url_parse shp input (Some sb))
+  /\ (forall su u, spec_basic_url_parse shp input (Some sb) = BDone su -> parse_url dbg hp hpo hd None (Some b) input = POk u ->
+        full_base dbg shs u su).
+Proof. exact class_file_same_drive. Qed.
+Check C01_eq_file_same_drive : forall dbg hp hpo hd shp shs, shs SEmpty = [] -> forall input b sb,
+  usv_list input -> related dbg shs b sb ->
+  match spec_scheme (spec_clean input) with
+  | Some (sch, R) => list_eqb sch str_file && file_drive_ok sb R
+  | None => false
+  end = true ->
+  agree_good dbg shs (parse_url dbg hp hpo hd None (Some b) input) (spec_basic_url_parse shp input (Some sb))
+  /\ (forall su u, spec_basic_url_parse shp input (Some sb) = BDone su -> parse_url dbg hp hpo hd None (Some b) input = POk u ->
+        full_base dbg shs u su).
+Print Assumptions C01_eq_file_same_drive.
+
+Theorem C01_statement_file_drive_model : forall dbg idna input b sb,
+  usv_list input -> full_base dbg spec_host_serializer b sb ->
+  in_class_file_rel_drive sb input || in_class_file_same_drive sb input = true ->
+  agree_good dbg spec_host_serializer
+    (parse_url dbg (host_parse idna) host_parse_opaque host_display None (Some b) input)
+    (spec_basic_url_parse (spec_host_parser idna) input (Some sb))
+  /\ (forall su u, spec_basic_url_parse (spec_host_parser idna) input (Some sb) = BDone su ->
+        parse_url dbg (host_parse idna) host_parse_opaque host_display None (Some b) input = POk u ->
+        full_base dbg spec_host_serializer u su).
+Proof.
+  intros dbg idna input b sb Hu Hb Hc. apply orb_true_iff in Hc. destruct Hc as [Hc|Hc];
+    [exact (class_file_rel_drive_model dbg idna input b sb Hu Hb Hc) | exact (class_file_same_drive_model dbg idna input b sb Hu Hb Hc)].
+Qed.
+Print Assumptions C01_statement_file_drive_model.
+
+(* non-vacuity: against the parse result of file:///tmp/x the references C|/y (scheme-less), file:C:/y, fIle:c|\z?q are
+   in the classes; both sides give file:///C:/y, file:///C:/y, file:///c:/z?q *)
+Example C01_eq_file_drive_nonvacuous :
+  let idna := id_idna in
+  let P base i := parse_url true (host_parse idna) host_parse_opaque host_display None base i in
+  let S sbase i := spec_basic_url_parse (spec_host_parser idna) i sbase in
+  let bt := [102;105;108;101;58;47;47;47;116;109;112;47;120] in
+  match P None bt, S None bt with
+  | POk b, BDone sb =>
+      let ok (cls : spec_url -> list N -> bool) i h :=
+        cls sb i = true /\ known_c01 (Some b) i = 1
+        /\ match P (Some b) i, S (Some sb) i with
+           | POk u, BDone su => q_href u = h /\ api_of_model true u = Some (spec_api_list spec_host_serializer su)
+           | _, _ => False end in
+      ok in_class_file_rel_drive [67;124;47;121] [102;105;108;101;58;47;47;47;67;58;47;121]
+      /\ ok in_class_file_same_drive [102;105;108;101;58;67;58;47;121] [102;105;108;101;58;47;47;47;67;58;47;121]
+      /\ ok in_class_file_same_drive [102;73;108;101;58;99;124;92;122;63;113] [102;105;108;101;58;47;47;47;99;58;47;122;63;113]
+  | _, _ => False
+  end.
+Proof. exact class_file_drive_nonvacuous. Qed.
+
+(* the condition "empty base host" is necessary (F-C01-1 family): against the parse result of file://h/tmp/x the
+   reference file:C:/y gives file://h/C:/y in the Standard and file:///C:/y in parser.rs.
+   Replay: Url::parse("file://h/tmp/x").unwrap().join("file:C:/y") *)
+Theorem C01_file_drive_exclusion_necessary :
+  let idna := id_idna in
+  let P base i := parse_url true (host_parse idna) host_parse_opaque host_display None base i in
+  let S sbase i := spec_basic_url_parse (spec_host_parser idna) i sbase in
+  let i := [102;105;108;101;58;67;58;47;121] in
+  match P None file_base_text, S None file_base_text with
+  | POk b, BDone sb =>
+      in_class_file_same_drive sb i = false /\ known_c01 (Some b) i = 1
+      /\ match P (Some b) i, S (Some sb) i with
+         | POk u, BDone su => q_href u = [102;105;108;101;58;47;47;47;67;58;47;121] /\ get_href spec_host_serializer su = [102;105;108;101;58;47;47;104;47;67;58;47;121]
+         | _, _ => False end
+  | _, _ => False
+  end.
+Proof. exact class_file_drive_exclusion_necessary. Qed.
+Print Assumptions C01_file_drive_exclusion_necessary.
+
+(* ---- ".." behind a SOLE normalized drive letter (task c01file5): neither side pops it (the Standard: shorten a
+   file URL's path; parser.rs: last_slash_can_be_removed / pop_path), so the exclusion F-C01-5/9 of fpath_ok - ".."
+   meets a drive-letter-shaped last segment - no longer applies when that segment is the only one and normalized
+   (fin_ok2).  Every class theorem stated with fpath_ok / fp_ok / file_class_ok got broader accordingly. ---- *)
+Theorem C01_fin_ok_sole_drive : forall hh P B,
+  fin_okf hh P B
+  = (negb (is_double_dot_segment B && last_is_wdl P)
+     || (is_double_dot_segment B && match P with [p0] => is_normalized_windows_drive_letter p0 | _ => false end))
+    && negb (hh && is_nil P && is_windows_drive_letter B).
+Proof. reflexivity. Qed.
+Print Assumptions C01_fin_ok_sole_drive.
+
+(* the model's end-of-segment step under the relaxed condition *)
+Theorem C01_finish_segment_file : forall pre dbg segs cur (ews : bool) hh,
+  forallb no_slash segs = true -> fin_ok2 segs cur = true ->
+  (hh && is_nil segs && is_windows_drive_letter cur) = false ->
+  finish_segment dbg STFile (nlen pre) (Bs pre segs ++ cur ++ (if ews then [47] else [])) (nlen (Bs pre segs)) ews hh
+  = POk (Bs pre (fst (fin_step_f segs cur ews)) ++ snd (fin_step_f segs cur ews), hh).
+Proof. exact finish_exact_f. Qed.
+Print Assumptions C01_finish_segment_file.
+
+(* Known_C01 follows (Model/KnownC01.v kf_fin_ok relaxed with kf_sole; twin harness/src/known01.rs; the cover lemma
+   k_file_ok -> file_class_ok, hence C01_statement_all3, holds for the narrowed predicate): without a base,
+   file:C:/../x and file:/c|/../../y are outside Known_C01, in the file class, both sides give file:///C:/x and
+   file:///c:/y; file:///a/C:/../x (the drive letter is not the sole segment) stays in class 1 and the sides differ
+   there (F-C01-5: file:///a/C:/x against the Standard's file:///a/x) *)
+Theorem C01_known_sole_drive :
+  let idna := id_idna in
+  let P i := parse_url true (host_parse idna) host_parse_opaque host_display None None i in
+  let S i := spec_basic_url_parse (spec_host_parser idna) i None in
+  let ok i h := known_c01 None i = 0 /\ in_class_file i = true
+                /\ match P i, S i with
+                   | POk u, BDone su => q_href u = h /\ api_of_model true u = Some (spec_api_list spec_host_serializer su)
+                   | _, _ => False end in
+  ok [102;105;108;101;58;67;58;47;46;46;47;120] [102;105;108;101;58;47;47;47;67;58;47;120] /\ ok [102;105;108;101;58;47;99;124;47;46;46;47;46;46;47;121] [102;105;108;101;58;47;47;47;99;58;47;121]
+  /\ known_c01 None [102;105;108;101;58;47;47;47;97;47;67;58;47;46;46;47;120] = 1
+  /\ match P [102;105;108;101;58;47;47;47;97;47;67;58;47;46;46;47;120], S [102;105;108;101;58;47;47;47;97;47;67;58;47;46;46;47;120] with
+     | POk u, BDone su => q_href u = [102;105;108;101;58;47;47;47;97;47;67;58;47;120] /\ get_href spec_host_serializer su = [102;105;108;101;58;47;47;47;97;47;120]
+     | _, _ => False end.
+Proof. exact known_sole_drive. Qed.
+Print Assumptions C01_known_sole_drive.
+
 (* ====================================================================================== *)
 (* appended block (task c09last): the *_model theorems for the REAL idna oracle            *)
 (* ====================================================================================== *)
